@@ -52,7 +52,9 @@ def run_property(prop: str, tier: str, root: str | None = None, write: bool = Tr
     if mod:
         expl += (" NET (generic nets over the modules this property is anchored in, pstatic/unused.py): no parameter and no plainly assigned local that nothing reads "
                  "(frozen interface-conformance exceptions), no loop variable read after its loop beyond the confirmed sites, and every rejection over an array comparison is "
-                 "existential (np.any(violation) / not np.all(requirement)).")
+                 "existential (np.any(violation) / not np.all(requirement)); no public accessor returns a private attribute, an element of a private container, or a "
+                 "module-level mutable table (or an entry of it) as it is unless the result is immutable (frozen exception tables), and no public member that is cached "
+                 "(cached_property / lru_cache) returns a mutable object.")
     assum = getattr(mod, "ASSUMPTIONS", []) if mod else []
     return rep.finish(seed, extra, expl, assum)
 
